@@ -11,15 +11,19 @@ chk('C14', 'model_checking',
     'successor: sps positive int, fs = R*sps, dt = 1/fs, f0 = c/wavelength, the given values in force, t/w/dw consistent with N, no grid without N, customs exactly those '
     'given since clean(), clean() == new instance incl. types. Plus 72 / 216 histories with a custom keyword of 18 kinds of value (None, containers, arrays, callables...) x 4 '
     'placements, then clean(). Part B: menu of 183 public calls (devices, codecs, DSP, utils, signal operators; dtype, length-1, prime-length, long, layout, scale, boundary, '
-    'container, optional-argument and chained-pipeline entries) on shared write-protected inputs under 4 ambient grids (one with N in force); oracle for every call = the '
-    'same call made FIRST in a fresh interpreter (732 subprocesses, 2 numpy seeds). Executed: every entry twice per seed and grid; every ordered pair on the base grid; '
+    'container, optional-argument and chained-pipeline entries) on shared write-protected inputs under 4 ambient grids (one with N in force), + 20 grid-built entries (waveforms made on the grid in '
+    'force) and 5 grids with an ODD sps (3,5,7,9,15); oracle for every call = the '
+    'same call made FIRST in a fresh interpreter (1 657 subprocesses, 2 numpy seeds). Executed: every entry twice per seed and grid; every ordered pair on the base grid; '
     'every entry under every grid switch g1,g2,g1 (2 196); every ordered pair of cheap entries across a grid switch; every ordered triple of 36 cheap entries (quick) / of '
-    '114 entries + every quadruple of 16 (thorough): 231 636 / 1.77 M library calls. After every call: gv and argument bytes unchanged, no output shares memory with an '
+    '114 entries + every quadruple of 16 (thorough): 248 100 / 1.79 M library calls. Heap part: each of the 1 657 (entry, grid) calls made after freed heap buffers of every small '
+    'size were deliberately filled with nan, then with 1e300: identical outputs (key uninitialised-memory), equal to the fresh process; 1 225 dirty-heap '
+    'sequences of 35 slot-structured entries under / across the odd grids. After every call: gv and argument bytes unchanged, no output shares memory with an '
     'argument or gv.t/gv.w, earlier outputs intact; examined outputs are overwritten to expose memoised buffers',
     'the fixed point is relative to the finite alphabet: commensurate rates only (fs/R = x.5 only as an odd call before clean()), a handful of values per attribute, two custom '
     'names; two singleton states are identified when all attributes are equal BY VALUE (1e9, 10**9, np.float64(1e9) are one state); nothing is asserted about the state a '
     'failing call leaves, only that clean() restores the defaults; N = 0, non-integer sps/N, keyword names that shadow methods/grid attributes are outside; the t[-1] endpoint '
-    'convention is not fixed; part B covers call sequences of length 2 everywhere, 3 (4) only over the cheap sub-menus, on one canned input per entry; wall-clock '
+    'convention is not fixed; part B covers call sequences of length 2 everywhere, 3 (4) only over the cheap sub-menus, on one canned input per entry; heap dirtying is best effort above numpy\'s 1 KiB block cache, and a same-sized '
+    'temporary freed just before an np.empty masks the read; wall-clock '
     'execution_time is excluded from comparison; display helpers (str/repr/print/sizeof), tic/toc, plotting and lab instruments are not in the menu; numpy RNG reseeded '
     'through the public seed call',
     'explicit-state BFS to fixed point on the real gv object in lock-step with a reference model + exhaustive call-order enumeration with a fresh-interpreter differential '
